@@ -7,6 +7,7 @@ mod daemon_shut;
 mod eng_client;
 mod eng_daemon;
 mod eng_gpu;
+mod eng_errs;
 mod eng_kern;
 mod eng_listen;
 mod eng_sender;
@@ -100,6 +101,10 @@ fn main() {
         "sender" => {
             let cases = read_cases(&arg(&args, "--cases").expect("--cases"));
             eng_sender::run(&cases, &mut trace, seed);
+        }
+        "errs" => {
+            let cases = read_cases(&arg(&args, "--cases").expect("--cases"));
+            eng_errs::run(&cases, &mut trace, seed);
         }
         "listen" => {
             let cases = read_cases(&arg(&args, "--cases").expect("--cases"));
